@@ -355,6 +355,9 @@ def rule_append_flush(ctx, R="C09/append-flush"):
                     ctx.check(so[0] == "call" and so[1] == "std::io::Seek::stream_position" and root(strip(so[2][0])) == ("param", 3) and root(strip(d["destination"])) == ("param", 3),
                               R, ("new", "start-offset"), nb.where(bi, si), "destination_start_offset <- destination.stream_position() of the stored destination",
                               "destination_start_offset is %s" % show(so)[:120])
+                    if "last_position_written_to_file" not in d or "curr_idx" not in d:
+                        ctx.violated(R, ("new", "zero-state"), nb.where(bi, si), "anchor lost: DirSection no longer has the fields last_position_written_to_file / curr_idx (has %s): how much of the image was flushed, and which slot is next, must be the section's own bookkeeping" % sorted(d))
+                        continue
                     z1, z2 = core(d["last_position_written_to_file"]), core(d["curr_idx"])
                     ctx.check(z1 == ("const", 0, "u64") and z2 == ("const", 0, "usize"), R, ("new", "zero-state"), nb.where(bi, si),
                               "flushed mark and directory index start at 0", "flushed mark / index start at %s / %s" % (show(z1), show(z2)))
